@@ -25,6 +25,8 @@ func propC17(c *Ctx) {
 		ruleJSONDepth(c, rjd)
 		ran := c.Rule("array-nonnil", "the decoder builds arrays on a non-nil empty Array (an empty JSON array must marshal back as [] and not as null)", 1)
 		ruleArrayNonNil(c, ran)
+		rpr := c.Rule("pool-reset", "a value the json package recycles through a sync.Pool is fully reset on every path, the error paths included: the partial output of a failed Marshal never starts the next document", 0)
+		rulePoolReset(c, rpr, func(pp string) bool { return pp == jsonPath })
 	}()
 	rw := c.Rule("enc-write", "every encoder that the type dispatch can return either writes to the encode state or aborts through the error helper on every path: an encoder that writes nothing produces a malformed document inside a container ({\"a\":,\"b\":1})", 10)
 	disp := l.Func(jsonPath, "objectEncoder")
@@ -572,6 +574,10 @@ func propC02(c *Ctx) {
 	defer func() {
 		rtp := c.Rule("try-end-pop", "the instruction that ends a try statement pops the statement's handler on every path (handlers are addressed by static nesting depth; loop control with break / continue / return through finally depends on it)", 1)
 		ruleTryEndPop(c, rtp)
+		rpe := c.Rule("pending-err-per-handler", "the error parked while a finally or catch block runs is kept per handler, not once per activation: a try statement nested in that block cannot lose it", 1)
+		rulePendingErrPerHandler(c, rpe)
+		rcb := c.Rule("counter-balance", "a function that increments a nesting counter of the compiler or optimizer (try depth, loop depth, expression level) decrements it again on every path to a successful return", 2)
+		ruleCounterBalance(c, rcb)
 		rfc := c.Rule("free-const", "the symbol of a captured variable inherits the Constant flag: a constant cannot be assigned from inside a function literal", 1)
 		ruleFreeConst(c, rfc)
 		rdf := c.Rule("define-fresh", "a := declaration of a local is always compiled to OpDefineLocal, never to an assignment opcode: one fresh variable per executed declaration", 1)
